@@ -9,7 +9,7 @@ from ..flow import Flow
 from ..model import AnalysisError, Cls, Func, Program, walk_own
 from ..report import Report
 from ..resolve import const_value, dotted, kwarg
-from ..util import assigned_value, calls_in, ext_name, returns_of, src
+from ..util import assigned_value, calls_in, ext_name, is_manager_expr, manager_fields, returns_of, src
 
 STORAGE_MOD = "windpyutils.parallel.storage"
 MUTATING = {"append", "extend", "insert", "pop", "remove", "clear", "sort", "reverse", "__setitem__", "__delitem__"}
@@ -24,6 +24,7 @@ class StorageFacts:
         self.shared_values: List[str] = []
         self.lock = None
         self.init_values: Dict[str, ast.expr] = {}
+        mgrs = manager_fields(prog, self.cls)
         for n in walk_own(init.node):
             tgt, val = None, None
             if isinstance(n, ast.Assign) and len(n.targets) == 1:
@@ -36,7 +37,7 @@ class StorageFacts:
             self.init_values[d[1]] = val
             if isinstance(val, ast.Call):
                 name = prog.external_name(init.mod, val.func) or src(val.func)
-                if name.endswith(".list") and "manager" in name.lower():
+                if isinstance(val.func, ast.Attribute) and val.func.attr == "list" and is_manager_expr(val.func.value, init.self_name, mgrs):
                     self.shared_lists.append(d[1])
                 elif name.split(".")[-1] == "Value":
                     self.shared_values.append(d[1])
